@@ -24,7 +24,7 @@ ENV = dict(os.environ, GOFLAGS="-mod=mod", GOPROXY="off")
 
 
 def sh(cmd, cwd, timeout=1800, env=ENV):
-    p = subprocess.run(cmd, cwd=cwd, env=env, shell=isinstance(cmd, str), capture_output=True, text=True, timeout=timeout)
+    p = subprocess.run(cmd, cwd=cwd, env=env, shell=isinstance(cmd, str), capture_output=True, text=True, errors="replace", timeout=timeout)
     return p.returncode, (p.stdout + p.stderr)
 
 
